@@ -235,3 +235,22 @@ pub fn c03_resolve_sr_any() {
     std::mem::forget(g);
     std::mem::forget(sr);
 }
+
+/// Self-tests of the flag set (`--no-overflow-checks --no-memory-safety-checks` drop CBMC's own
+/// instrumentation): Rust-level arithmetic-overflow and index panics must still be reported.  The
+/// driver requires these two harnesses to FAIL with exactly that check.
+#[kani::proof]
+pub fn selftest_overflow() {
+    let a: u8 = kani::any();
+    let b = a + 1; // must be reported for a == 255
+    assert!(b != 7 || a == 6);
+}
+
+#[kani::proof]
+pub fn selftest_index() {
+    let v = [1u8, 2, 3];
+    let i: usize = kani::any();
+    kani::assume(i <= 3);
+    let x = v[i]; // must be reported for i == 3
+    assert!(x > 0);
+}
